@@ -1,7 +1,8 @@
 import HappyProofs.C09.PoolSpec
 /-! A simpler sufficient form of `SchedOk`: if the call ids of the `acq` entries of a schedule are
 pairwise distinct (what the engine harness does: one id per `acquire()` call), the freshness part of
-`SchedOk` follows, so only "the segment exists" and "the timer" remain as hypotheses. -/
+`SchedOk` follows, so only "the segment exists" and the two timers (acquire time-out, idle time-out)
+remain as hypotheses. -/
 namespace HappyModel.C09.Pool
 
 /-- the call ids of the `acq` entries, in order -/
@@ -13,17 +14,19 @@ def acqIds : List (Nat × Op) → List Nat
     | _ => acqIds rest
 
 /-- `opOk` without the freshness test -/
-def segOk (timeoutNs : Nat) (s : St) (since : List (Nat × Nat)) (t : Nat) (o : Op) : Bool :=
-  (step s o).2 != .bad &&
+def segOk (timeoutNs idleNs : Nat) (s : St) (since : List (Nat × Nat)) (t : Nat) (o : Op) : Bool :=
+  (stepAt s t o).2 != .bad &&
   match o with
-  | .timeout id => timerOk timeoutNs since t id
+  | .timeout id => timerOk timeoutNs since t id && !headFree s id
+  | .idleCheck _ e => decide (e + idleNs ≤ t)
   | _ => true
 
 /-- `SchedOk` without the freshness test -/
-def SegsOk (timeoutNs : Nat) : St → List (Nat × Nat) → List (Nat × Op) → Bool
+def SegsOk (timeoutNs idleNs : Nat) : St → List (Nat × Nat) → List (Nat × Op) → Bool
   | _, _, [] => true
   | s, since, e :: rest =>
-    segOk timeoutNs s since e.1 e.2 && SegsOk timeoutNs (step s e.2).1 (sinceAfter s since e.1 e.2) rest
+    segOk timeoutNs idleNs s since e.1 e.2
+      && SegsOk timeoutNs idleNs (stepAt s e.1 e.2).1 (sinceAfter s since e.1 e.2) rest
 
 /-- calls pending inside the pool: queued, or handed a connection not yet noticed -/
 def pending (s : St) : List Nat := s.waiters ++ s.handed.map (·.1)
@@ -40,6 +43,25 @@ theorem freshId_of_not_pending {s : St} {id : Nat} (h : id ∉ pending s) : fres
     | true =>
       obtain ⟨x, hm, he⟩ := List.any_eq_true.1 hx
       exact absurd (List.mem_map.2 ⟨x, hm, by simpa using he⟩) h.2
+
+theorem pending_mono {w w' : List Nat} {h h' : List (Nat × Nat)} (hw : ∀ x ∈ w', x ∈ w) (hh : ∀ p ∈ h', p ∈ h)
+    {x : Nat} (hx : x ∈ w' ++ h'.map (·.1)) : x ∈ w ++ h.map (·.1) := by
+  rcases List.mem_append.1 hx with h1 | h1
+  · exact List.mem_append_left _ (hw x h1)
+  · obtain ⟨p, hp, hpe⟩ := List.mem_map.1 h1
+    exact List.mem_append_right _ (List.mem_map.2 ⟨p, hh p hp, hpe⟩)
+
+theorem giveBack_pending (s : St) (c x : Nat) (hx : x ∈ pending (giveBack s c).1) : x ∈ pending s := by
+  rw [giveBack_eq] at hx
+  split at hx
+  · rename_i w ws hq
+    simp only [pending, List.mem_append, List.map_append, List.map_cons, List.map_nil,
+      hq, List.mem_cons, List.not_mem_nil, or_false] at hx ⊢
+    rcases hx with h | h | h
+    · exact .inl (.inr h)
+    · exact .inr h
+    · exact .inl (.inl h)
+  · exact hx
 
 /-- only an `acq` adds a pending call, and only its own id -/
 theorem step_pending (s : St) (o : Op) (x : Nat) (hx : x ∈ pending (step s o).1) :
@@ -62,36 +84,52 @@ theorem step_pending (s : St) (o : Op) (x : Nat) (hx : x ∈ pending (step s o).
   | poll id =>
     rw [step_poll] at hx
     split at hx
-    · simp only [pending, List.mem_append] at hx ⊢
-      rcases hx with h | h
-      · exact .inl (.inl h)
-      · exact .inl (.inr ((List.Sublist.map _ List.filter_sublist).subset h))
-    · exact .inl hx
+    · exact .inl (pending_mono (fun _ h => h) (fun _ h => (List.mem_filter.1 h).1) hx)
+    · split at hx
+      · exact .inl hx
+      · split at hx
+        · exact .inl (pending_mono (fun _ h => List.mem_of_mem_tail h) (fun _ h => h) hx)
+        · split at hx
+          · exact .inl (pending_mono (fun _ h => List.mem_of_mem_tail h) (fun _ h => h) hx)
+          · exact .inl hx
   | timeout id =>
     rw [step_timeout] at hx
     split at hx
     · exact .inl hx
-    · simp only [pending, List.mem_append] at hx ⊢
-      rcases hx with h | h
-      · exact .inl (.inl (List.mem_filter.1 h).1)
-      · exact .inl (.inr h)
+    · exact .inl (pending_mono (fun _ h => (List.mem_filter.1 h).1) (fun _ h => h) hx)
   | rel c =>
     rw [step_rel] at hx
     split at hx
     · exact .inl hx
+    · exact .inl (giveBack_pending s c x hx)
+  | abandon id =>
+    rw [step_abandon] at hx
+    split at hx
+    · exact .inl hx
     · split at hx
-      · rename_i w ws hq
-        simp only [pending, List.mem_append, List.map_append, List.map_cons, List.map_nil,
-          hq, List.mem_cons, List.not_mem_nil, or_false] at hx ⊢
-        rcases hx with h | h | h
-        · exact .inl (.inl (.inr h))
-        · exact .inl (.inr h)
-        · exact .inl (.inl (.inl h))
-      · exact .inl hx
+      · split at hx
+        · exact .inl (pending_mono (fun _ h => h) (fun _ h => (List.mem_filter.1 h).1) hx)
+        · have := giveBack_pending _ _ x hx
+          exact .inl (pending_mono (fun _ h => h) (fun _ h => (List.mem_filter.1 h).1) this)
+      · split at hx
+        · exact .inl (pending_mono (fun _ h => (List.mem_filter.1 h).1) (fun _ h => h) hx)
+        · exact .inl hx
+  | idleCheck c e =>
+    rw [step_idleCheck] at hx
+    split at hx
+    · split at hx <;> exact .inl hx
+    · exact .inl hx
+  | warm =>
+    rw [step_warm] at hx
+    split at hx <;> exact .inl hx
+  | wmade =>
+    rw [step_wmade] at hx
+    split at hx <;> exact .inl hx
 
-theorem schedOk_of_distinct (timeoutNs : Nat) (s : St) (since : List (Nat × Nat)) (sched : List (Nat × Op))
+theorem schedOk_of_distinct (timeoutNs idleNs : Nat) (s : St) (since : List (Nat × Nat))
+    (sched : List (Nat × Op))
     (hpend : ∀ x ∈ pending s, x ∉ acqIds sched) (hnd : (acqIds sched).Nodup)
-    (h : SegsOk timeoutNs s since sched = true) : SchedOk timeoutNs s since sched = true := by
+    (h : SegsOk timeoutNs idleNs s since sched = true) : SchedOk timeoutNs idleNs s since sched = true := by
   induction sched generalizing s since with
   | nil => rfl
   | cons e rest ih =>
@@ -109,9 +147,13 @@ theorem schedOk_of_distinct (timeoutNs : Nat) (s : St) (since : List (Nat × Nat
       | poll id => exact h1
       | timeout id => exact h1
       | rel c => exact h1
+      | abandon id => exact h1
+      | idleCheck c e => exact h1
+      | warm => exact h1
+      | wmade => exact h1
     · apply ih _ _ ?_ ?_ h.2
       · intro x hx
-        rcases step_pending s o x hx with hp | ho
+        rcases step_pending { s with now := t } o x hx with hp | ho
         · have := hpend x hp
           cases o <;> simp only [acqIds, List.mem_cons, not_or] at this ⊢
           all_goals first | exact this.2 | exact this
@@ -126,16 +168,30 @@ end HappyModel.C09.Pool
 namespace HappyModel.C09
 
 /-- the pool model's transcript satisfies the Spec judge on every schedule whose `acq` entries carry
-    pairwise distinct call ids, whose segments exist, and whose time-outs obey the timer -/
-theorem pool_trace_satisfies_spec_distinct (max timeoutNs : Nat) (sched : List (Nat × Pool.Op))
-    (hids : (Pool.acqIds sched).Nodup) (hseg : Pool.SegsOk timeoutNs { max := max } [] sched = true) :
-    Pool.judge max timeoutNs {} (Pool.obsTrace { max := max } sched) = none :=
-  pool_trace_satisfies_spec max timeoutNs sched
-    (Pool.schedOk_of_distinct timeoutNs { max := max } [] sched (by simp [Pool.pending]) hids hseg)
+    pairwise distinct call ids, whose segments exist, whose time-outs obey the timer (and are not raised
+    in the first waiter while capacity is free), and whose idle-timeout events are not delivered early -/
+theorem pool_trace_satisfies_spec_distinct (max timeoutNs min idleNs : Nat) (hmin : min ≤ max)
+    (sched : List (Nat × Pool.Op)) (hids : (Pool.acqIds sched).Nodup)
+    (hseg : Pool.SegsOk timeoutNs idleNs { max := max, min := min } [] sched = true) :
+    Pool.judge { max := max, timeoutNs := timeoutNs, min := min, idleNs := idleNs } {}
+      (Pool.obsTrace { max := max, min := min } sched) = none :=
+  pool_trace_satisfies_spec max timeoutNs min idleNs hmin sched
+    (Pool.schedOk_of_distinct timeoutNs idleNs { max := max, min := min } [] sched (by simp [Pool.pending]) hids hseg)
 
 example : (Pool.acqIds [(0, .acq 0), (0, .acq 1), (0, .acq 2), (1, .made 0), (3, .rel 1), (4, .poll 1),
       (20, .timeout 2)]).Nodup
-    ∧ Pool.SegsOk 10 { max := 1 } [] [(0, .acq 0), (0, .acq 1), (0, .acq 2), (1, .made 0), (3, .rel 1), (4, .poll 1),
+    ∧ Pool.SegsOk 10 0 { max := 1 } [] [(0, .acq 0), (0, .acq 1), (0, .acq 2), (1, .made 0), (3, .rel 1), (4, .poll 1),
       (20, .timeout 2)] = true := by decide
+
+/-- all nine segments: warm-up, an abandoned set-up whose slot the first waiter takes at its next poll, an
+    abandoned hand-off that goes to the idle list, idle-timeout checks (closed / kept / stale), a time-out -/
+example : (Pool.acqIds [(0, .warm), (1, .wmade), (1, .warm), (2, .acq 0), (2, .acq 1), (2, .acq 2), (2, .acq 3),
+      (3, .abandon 1), (4, .poll 2), (5, .made 2), (6, .poll 3), (7, .rel 1), (8, .abandon 3), (9, .rel 2),
+      (13, .idleCheck 1 8), (14, .idleCheck 2 9), (15, .idleCheck 1 1), (16, .acq 4), (16, .acq 5), (16, .acq 6),
+      (17, .made 5), (26, .timeout 6), (27, .abandon 9)]).Nodup
+    ∧ Pool.SegsOk 10 5 { max := 2, min := 1 } [] [(0, .warm), (1, .wmade), (1, .warm), (2, .acq 0), (2, .acq 1),
+      (2, .acq 2), (2, .acq 3), (3, .abandon 1), (4, .poll 2), (5, .made 2), (6, .poll 3), (7, .rel 1), (8, .abandon 3),
+      (9, .rel 2), (13, .idleCheck 1 8), (14, .idleCheck 2 9), (15, .idleCheck 1 1), (16, .acq 4), (16, .acq 5),
+      (16, .acq 6), (17, .made 5), (26, .timeout 6), (27, .abandon 9)] = true := by decide
 
 end HappyModel.C09
